@@ -37,10 +37,10 @@ def cases(tier, seed):
 
 def requirements(tier):
     return {"min_counters": {"constructions_tried": 350, "assignments_tried": 330, "grouped_tried": 330, "state_comparisons": 600,
-                             "classes_enumerated": 4 * 18},
+                             "classes_enumerated": 4 * 18, "owned_value_refused": 100},
             "required_classes": ["kind_wrong_dimension", "kind_negative", "kind_bare_number", "kind_string_object", "kind_hourly_for_scalar",
                                  "kind_scalar_for_hourly", "kind_outside_list", "kind_wrong_class_element", "kind_non_list", "kind_wrong_class_link",
-                                 "kind_forbidden_by_server_type"]}
+                                 "kind_forbidden_by_server_type", "kind_owned_by_another_object"]}
 
 
 def invalid_values(E, cls, pname, kind_of_param, vs, objs, obj_params):
@@ -86,6 +86,32 @@ def invalid_values(E, cls, pname, kind_of_param, vs, objs, obj_params):
     return out
 
 
+OPTIONAL_REFUSAL = ("owned_by_another_object",)
+
+
+def owned_values(E, spec, objs, target, pname, kind_of_param):
+    """a valid-looking value (right type, right dimension) that is already the input of ANOTHER object: whether it is refused is
+    not prescribed by the property, but a refusal must leave the model as it was (F28)"""
+    if kind_of_param not in ("q", "h", "s"):
+        return []
+    O = spec["objects"]
+    mine = O[target]["params"][pname]
+    for n, o in O.items():
+        if n == target or n not in objs:
+            continue
+        for p2, vs in o["params"].items():
+            if vs[0] != mine[0] or vs == mine:
+                continue
+            if vs[0] == "q" and (1 * E.u(vs[2])).dimensionality != (1 * E.u(mine[2])).dimensionality:
+                continue
+            if vs[0] == "s" and p2 != pname:
+                continue
+            v = getattr(objs[n], p2, None)
+            if isinstance(v, E.ExplainableObject) and getattr(v, "modeling_obj_container", None) is objs[n]:
+                return [("owned_by_another_object", v)]
+    return []
+
+
 def system_for(case, rnd):
     from .c17 import builder_spec
     spec = builder_spec(rnd)
@@ -106,7 +132,7 @@ def run_case(case):
     spec = system_for(case, rnd)
     h = Hist(rnd, case["tier"], spec=spec, id_seed=case["seed"] * 100 + case.get("sys", 0))
     C = {k: 0 for k in ("constructions_tried", "assignments_tried", "grouped_tried", "state_comparisons", "refused", "classes_enumerated",
-                        "known_F19", "build_failed")}
+                        "known_F19", "build_failed", "optional_refusal_accepted", "owned_value_refused")}
     classes = set()
     if h.build_error:
         return {"counters": dict(C, build_failed=1), "classes": [], "violations": [{"kind": "the all-classes model failed to build", "error": h.build_error}]}
@@ -127,7 +153,7 @@ def run_case(case):
     for pname, kind_of_param in table.items():
         if kind_of_param in ("str", "?") or pname not in P:
             continue
-        for label, bad in invalid_values(E, cls, pname, kind_of_param, P[pname], objs, P):
+        for label, bad in invalid_values(E, cls, pname, kind_of_param, P[pname], objs, P) + owned_values(E, h.spec, objs, target, pname, kind_of_param):
             classes.add("kind_" + label)
             ident = {"class": case["cls"], "parameter": pname, "invalid_kind": label, "context": case["ctx"]}
             done.append((pname, label))
@@ -140,7 +166,8 @@ def run_case(case):
                     mech = "F19-wrong-class-link-accepted-at-construction" if label in ("wrong_class_link", "wrong_class_element") else None
                     if mech:
                         C["known_F19"] += 1
-                    V.append({"kind": "invalid constructor argument accepted", "mechanism": mech, **ident})
+                    if label not in OPTIONAL_REFUSAL:
+                        V.append({"kind": "invalid constructor argument accepted", "mechanism": mech, **ident})
                     # the accepted probe has linked itself to objects of the model: rebuild a clean model
                     h = Hist(case_rng(case["seed"], case.get("sys", 0), "C14"), case["tier"], spec=system_for(case, case_rng(case["seed"], case.get("sys", 0), "C14")))
                     objs = dict(h.objs); sysm = h.system
@@ -169,10 +196,13 @@ def run_case(case):
             except Exception as e:
                 raised = True
                 C["refused"] += 1
+                C["owned_value_refused"] += int(label in OPTIONAL_REFUSAL)
             C["state_comparisons"] += 1
             obs1 = observe.full_state(sysm, identity=True)
             d = observe.state_diff(obs0, obs1)
-            if not raised:
+            if not raised and label in OPTIONAL_REFUSAL:
+                C["optional_refusal_accepted"] += 1
+            elif not raised:
                 V.append({"kind": "invalid value accepted", **ident})
             elif d:
                 V.append({"kind": "a refused value changed the model", "n_slots": len(d), "slots": observe.explain_state_diff(obs0, obs1, d), **ident})
